@@ -36,102 +36,110 @@ theorem packL_err {n : Nat} (h : 4294967296 ≤ n) : packL n = .error .struct :=
   simp [packL]; omega
 theorem packH_ok {n : Nat} (h : n < 65536) : packH n = .ok (be16 n) := by simp [packH, h]
 
-/-! ### varint -/
+/-! ### varint (git's offset encoding) -/
 
-theorem encodeVarintAux_zero (n : Nat) : encodeVarintAux 0 n = [UInt8.ofNat (n % 128)] := rfl
+theorem encodeVarintAux_zero (v : Nat) (acc : Bytes) : encodeVarintAux 0 v acc = acc := rfl
 
-theorem encodeVarintAux_succ (fuel n : Nat) :
-    encodeVarintAux (fuel + 1) n =
-      if n / 128 = 0 then [UInt8.ofNat (n % 128)]
-      else UInt8.ofNat (n % 128 + 128) :: encodeVarintAux fuel (n / 128) := rfl
+theorem encodeVarintAux_succ (fuel v : Nat) (acc : Bytes) :
+    encodeVarintAux (fuel + 1) v acc =
+      if v / 128 = 0 then acc
+      else encodeVarintAux fuel (v / 128 - 1) (UInt8.ofNat (128 + (v / 128 - 1) % 128) :: acc) := rfl
+
+theorem encodeVarint_def (n : Nat) :
+    encodeVarint n = encodeVarintAux (n + 1) n [UInt8.ofNat (n % 128)] := rfl
 
 theorem encodeVarint_small {n : Nat} (h : n < 128) : encodeVarint n = [UInt8.ofNat n] := by
-  unfold encodeVarint
-  cases n with
-  | zero => rfl
-  | succ m =>
-    have h1 : (m + 1) / 128 = 0 := by omega
-    rw [encodeVarintAux_succ, if_pos h1, Nat.mod_eq_of_lt h]
+  have h1 : n / 128 = 0 := by omega
+  rw [encodeVarint_def, encodeVarintAux_succ, if_pos h1, Nat.mod_eq_of_lt h]
 
-theorem readVarintAux_encodeAux : ∀ (fuel n : Nat), n ≤ fuel → ∀ (shift acc : Nat) (rest : Bytes),
-    readVarintAux shift acc (encodeVarintAux fuel n ++ rest) = .ok (acc + n * 2 ^ shift, rest) := by
+theorem readVarintAux_cons (v : Nat) (b : UInt8) (rest : Bytes) :
+    readVarintAux v (b :: rest) =
+      if b.toNat / 128 % 2 = 0 then .ok (v * 128 + b.toNat % 128, rest)
+      else readVarintAux (v * 128 + b.toNat % 128 + 1) rest := rfl
+
+theorem decodeVarintAux_cons (v : Nat) (b : UInt8) (rest : Bytes) :
+    decodeVarintAux v (b :: rest) =
+      if b.toNat / 128 % 2 = 0 then .ok (v * 128 + b.toNat % 128, rest)
+      else decodeVarintAux (v * 128 + b.toNat % 128 + 1) rest := rfl
+
+/-- Reading the continuation bytes the encoder put in front of `acc` brings the decoder from state 0
+to state `v / 128` (the decoder state is "value so far, plus one"). -/
+theorem readVarintAux_encodeAux : ∀ (fuel v : Nat) (acc t : Bytes), v ≤ fuel →
+    readVarintAux 0 (encodeVarintAux fuel v acc ++ t) = readVarintAux (v / 128) (acc ++ t) := by
   intro fuel
   induction fuel with
   | zero =>
-    intro n hn shift acc rest
-    have : n = 0 := by omega
+    intro v acc t hv
+    have : v = 0 := by omega
     subst this
-    rw [encodeVarintAux_zero]
-    simp [readVarintAux, varintStreamMask, varintStreamCont]
+    rfl
   | succ fuel ih =>
-    intro n hn shift acc rest
+    intro v acc t hv
     rw [encodeVarintAux_succ]
-    by_cases h : n < 128
-    · have h0 : n / 128 = 0 := by omega
-      have h1 : (UInt8.ofNat n).toNat = n := u8 (by omega)
-      have h2 : n / 128 % 2 = 0 := by omega
-      rw [if_pos h0, Nat.mod_eq_of_lt h]
-      simp only [List.cons_append, List.nil_append, readVarintAux, varintStreamMask, varintStreamCont, h1, h2,
-        if_true, Nat.mod_eq_of_lt h]
-    · have h0 : ¬ (n / 128 = 0) := by omega
-      have h1 : (UInt8.ofNat (n % 128 + 128)).toNat = n % 128 + 128 := by rw [u8 (by omega)]
-      have h2 : ¬ ((n % 128 + 128) / 128 % 2 = 0) := by omega
-      have h3 : (n % 128 + 128) % 128 = n % 128 := by omega
-      rw [if_neg h0]
-      simp only [if_false, List.cons_append, readVarintAux, varintStreamMask, varintStreamCont,
-        varintStreamShift, h1, h2, h3]
-      rw [ih (n / 128) (by omega)]
-      have : n % 128 * 2 ^ shift + n / 128 * 2 ^ (shift + 7) = n * 2 ^ shift := by
-        have hn' : n = 128 * (n / 128) + n % 128 := (Nat.div_add_mod n 128).symm
-        generalize n / 128 = q at *
-        generalize n % 128 = r at *
-        subst hn'
-        ring
-      rw [Nat.add_assoc, this]
+    by_cases h0 : v / 128 = 0
+    · rw [if_pos h0, h0]
+    · rw [if_neg h0, ih (v / 128 - 1) _ t (by omega)]
+      have hb : (UInt8.ofNat (128 + (v / 128 - 1) % 128)).toNat = 128 + (v / 128 - 1) % 128 := u8 (by omega)
+      have hc : ¬ ((128 + (v / 128 - 1) % 128) / 128 % 2 = 0) := by omega
+      rw [List.cons_append, readVarintAux_cons, hb, if_neg hc]
+      congr 1
+      omega
 
-theorem readVarintAux_encode (n : Nat) (shift acc : Nat) (rest : Bytes) :
-    readVarintAux shift acc (encodeVarint n ++ rest) = .ok (acc + n * 2 ^ shift, rest) :=
-  readVarintAux_encodeAux n n (Nat.le_refl _) shift acc rest
+theorem readVarint_encode (n : Nat) (rest : Bytes) : readVarint (encodeVarint n ++ rest) = .ok (n, rest) := by
+  unfold readVarint
+  rw [encodeVarint_def, readVarintAux_encodeAux (n + 1) n _ rest (by omega)]
+  have hb : (UInt8.ofNat (n % 128)).toNat = n % 128 := u8 (by omega)
+  have hc : n % 128 / 128 % 2 = 0 := by omega
+  rw [List.cons_append, List.nil_append, readVarintAux_cons, hb, if_pos hc]
+  congr 2
+  omega
 
-theorem decodeVarintAux_encodeAux : ∀ (fuel n : Nat), n ≤ fuel → ∀ (shift acc : Nat) (rest : Bytes),
-    decodeVarintAux shift acc (encodeVarintAux fuel n ++ rest) = (acc + n * 2 ^ shift, rest) := by
+theorem decodeVarintAux_encodeAux : ∀ (fuel v : Nat) (acc t : Bytes), v ≤ fuel →
+    decodeVarintAux 0 (encodeVarintAux fuel v acc ++ t) = decodeVarintAux (v / 128) (acc ++ t) := by
   intro fuel
   induction fuel with
   | zero =>
-    intro n hn shift acc rest
-    have : n = 0 := by omega
+    intro v acc t hv
+    have : v = 0 := by omega
     subst this
-    rw [encodeVarintAux_zero]
-    simp [decodeVarintAux, varintDecMask, varintDecCont]
+    rfl
   | succ fuel ih =>
-    intro n hn shift acc rest
+    intro v acc t hv
     rw [encodeVarintAux_succ]
-    by_cases h : n < 128
-    · have h0 : n / 128 = 0 := by omega
-      have h1 : (UInt8.ofNat n).toNat = n := u8 (by omega)
-      have h2 : n / 128 % 2 = 0 := by omega
-      rw [if_pos h0, Nat.mod_eq_of_lt h]
-      simp only [List.cons_append, List.nil_append, decodeVarintAux, varintDecMask, varintDecCont, h1, h2,
-        if_true, Nat.mod_eq_of_lt h]
-    · have h0 : ¬ (n / 128 = 0) := by omega
-      have h1 : (UInt8.ofNat (n % 128 + 128)).toNat = n % 128 + 128 := by rw [u8 (by omega)]
-      have h2 : ¬ ((n % 128 + 128) / 128 % 2 = 0) := by omega
-      have h3 : (n % 128 + 128) % 128 = n % 128 := by omega
-      rw [if_neg h0]
-      simp only [if_false, List.cons_append, decodeVarintAux, varintDecMask, varintDecCont,
-        varintDecShift, h1, h2, h3]
-      rw [ih (n / 128) (by omega)]
-      have : n % 128 * 2 ^ shift + n / 128 * 2 ^ (shift + 7) = n * 2 ^ shift := by
-        have hn' : n = 128 * (n / 128) + n % 128 := (Nat.div_add_mod n 128).symm
-        generalize n / 128 = q at *
-        generalize n % 128 = r at *
-        subst hn'
-        ring
-      rw [Nat.add_assoc, this]
+    by_cases h0 : v / 128 = 0
+    · rw [if_pos h0, h0]
+    · rw [if_neg h0, ih (v / 128 - 1) _ t (by omega)]
+      have hb : (UInt8.ofNat (128 + (v / 128 - 1) % 128)).toNat = 128 + (v / 128 - 1) % 128 := u8 (by omega)
+      have hc : ¬ ((128 + (v / 128 - 1) % 128) / 128 % 2 = 0) := by omega
+      rw [List.cons_append, decodeVarintAux_cons, hb, if_neg hc]
+      congr 1
+      omega
 
-theorem decodeVarintAux_encode (n : Nat) (shift acc : Nat) (rest : Bytes) :
-    decodeVarintAux shift acc (encodeVarint n ++ rest) = (acc + n * 2 ^ shift, rest) :=
-  decodeVarintAux_encodeAux n n (Nat.le_refl _) shift acc rest
+theorem decodeVarint_encode (n : Nat) (rest : Bytes) : decodeVarint (encodeVarint n ++ rest) = .ok (n, rest) := by
+  unfold decodeVarint
+  rw [encodeVarint_def, decodeVarintAux_encodeAux (n + 1) n _ rest (by omega)]
+  have hb : (UInt8.ofNat (n % 128)).toNat = n % 128 := u8 (by omega)
+  have hc : n % 128 / 128 % 2 = 0 := by omega
+  rw [List.cons_append, List.nil_append, decodeVarintAux_cons, hb, if_pos hc]
+  congr 2
+  omega
+
+/-- The code's encoder is git's `encode_varint` (the independent transcription of varint.c). -/
+theorem encodeVarintAux_eq_git : ∀ (fuel v : Nat) (acc : Bytes),
+    encodeVarintAux fuel v acc = gitEncodeVarintAux fuel v acc := by
+  intro fuel
+  induction fuel with
+  | zero => intro v acc; rfl
+  | succ fuel ih =>
+    intro v acc
+    rw [encodeVarintAux_succ]
+    simp only [gitEncodeVarintAux]
+    split
+    · rfl
+    · exact ih _ _
+
+theorem encodeVarint_eq_git (n : Nat) : encodeVarint n = gitEncodeVarint n := by
+  rw [encodeVarint_def]; unfold gitEncodeVarint; exact encodeVarintAux_eq_git _ _ _
 
 /-! ### path compression -/
 
@@ -212,22 +220,24 @@ theorem clearBits_4095 (x : Nat) : clearBits x 4095 = 4096 * (x / 4096) := by
 /-- The high nibble of the on-disk flags word. -/
 def hiNibble (flags ext : Nat) : Nat := flags / 4096 ||| (if ext ≠ 0 then 4 else 0)
 
-theorem diskFlags_eq (e : Entry) (hl : e.name.length < 4096) :
-    diskFlags e = 4096 * hiNibble e.flags e.ext + e.name.length := by
+theorem diskFlags_eq (e : Entry) :
+    diskFlags e = 4096 * hiNibble e.flags e.ext + min e.name.length 4095 := by
   unfold diskFlags hiNibble
   simp only [flagNameMask, flagExtended, clearBits_4095]
-  have h0 : e.name.length ||| 4096 * (e.flags / 4096) = 4096 * (e.flags / 4096) + e.name.length := by
+  generalize hL : min e.name.length 4095 = L
+  have hl : L < 4096 := by omega
+  have h0 : L ||| 4096 * (e.flags / 4096) = 4096 * (e.flags / 4096) + L := by
     rw [or12]
-    have a1 : e.name.length / 4096 = 0 := by omega
+    have a1 : L / 4096 = 0 := by omega
     have a2 : 4096 * (e.flags / 4096) / 4096 = e.flags / 4096 := by omega
     have a3 : 4096 * (e.flags / 4096) % 4096 = 0 := by omega
-    have a4 : e.name.length % 4096 = e.name.length := by omega
+    have a4 : L % 4096 = L := by omega
     rw [a1, a2, a3, a4]; simp
   rw [h0]
   split
   · rw [or12]
-    have a1 : (4096 * (e.flags / 4096) + e.name.length) / 4096 = e.flags / 4096 := by omega
-    have a2 : (4096 * (e.flags / 4096) + e.name.length) % 4096 = e.name.length := by omega
+    have a1 : (4096 * (e.flags / 4096) + L) / 4096 = e.flags / 4096 := by omega
+    have a2 : (4096 * (e.flags / 4096) + L) % 4096 = L := by omega
     rw [a1, a2]; simp
   · simp
 
@@ -243,39 +253,49 @@ theorem word_and_name (A L : Nat) (hl : L < 4096) : (4096 * A + L) &&& 4095 = L 
 theorem word_clear (A L : Nat) (hl : L < 4096) : clearBits (4096 * A + L) 4095 = 4096 * A := by
   rw [clearBits_4095]; omega
 
+/-! ### padding -/
+
+theorem and_7 (x : Nat) : x &&& 7 = x % 8 := by
+  have := Nat.and_two_pow_sub_one_eq_mod x 3
+  simpa using this
+
+theorem padLenWrite_eq (n : Nat) : padLenWrite n = 8 - n % 8 := by
+  simp only [padLenWrite, padLenWith, padAddWrite, padMaskWrite, clearBits, and_7]; omega
+
+theorem padLenRead_eq (n : Nat) : padLenRead n = padLenWrite n := rfl
+
 /-! ### times and the fixed part -/
 
-def timeOk : Time → Prop
-  | .int t => t < 4294967296
-  | .pair s n => s < 4294967296 ∧ n < 4294967296
-
-instance : DecidablePred timeOk := fun t => by cases t <;> simp only [timeOk] <;> infer_instance
-
-/-- What `read_cache_time` returns for what `write_cache_time` wrote: always a pair. -/
+/-- What `read_cache_time` returns for what `write_cache_time` wrote: always a pair, each half reduced
+modulo 2^32 (the code masks, as git's `(unsigned int)` assignment does). -/
 def normTime : Time → Time
-  | .int t => .pair t 0
-  | .pair s n => .pair s n
+  | .int t => .pair (t % 4294967296) 0
+  | .pair s n => .pair (s % 4294967296) (n % 4294967296)
 
 def timeBytes : Time → Bytes
-  | .int t => be32 t ++ be32 0
-  | .pair s n => be32 s ++ be32 n
+  | .int t => be32 (t % 4294967296) ++ be32 0
+  | .pair s n => be32 (s % 4294967296) ++ be32 (n % 4294967296)
 
 theorem timeBytes_length (t : Time) : (timeBytes t).length = 8 := by cases t <;> rfl
 
-theorem packTime_ok {t : Time} (h : timeOk t) : packTime t = .ok (timeBytes t) := by
-  cases t with
-  | int t => simp only [timeOk] at h; simp [packTime, packL_ok h, packL_ok (show 0 < 4294967296 by decide), timeBytes]
-  | pair s n => simp only [timeOk] at h; simp [packTime, packL_ok h.1, packL_ok h.2, timeBytes]
-
-theorem readTime_timeBytes {t : Time} (h : timeOk t) (rest : Bytes) :
-    readTime (timeBytes t ++ rest) = .ok (normTime t, rest) := by
+theorem packTime_ok (t : Time) : packTime t = .ok (timeBytes t) := by
+  have hm : ∀ x, x % 4294967296 < 4294967296 := fun x => Nat.mod_lt _ (by decide)
   cases t with
   | int t =>
-    simp only [timeOk] at h
-    simp [readTime, timeBytes, List.append_assoc, readL_be32 h, readL_be32 (show 0 < 4294967296 by decide), normTime]
+    simp only [packTime, maskOpt, timeSecMask, timeNsecMask, and_u32, timeBytes]
+    rw [packL_ok (hm t), packL_ok (hm 0)]; rfl
   | pair s n =>
-    simp only [timeOk] at h
-    simp [readTime, timeBytes, List.append_assoc, readL_be32 h.1, readL_be32 h.2, normTime]
+    simp only [packTime, maskOpt, timeSecMask, timeNsecMask, and_u32, timeBytes]
+    rw [packL_ok (hm s), packL_ok (hm n)]; rfl
+
+theorem readTime_timeBytes (t : Time) (rest : Bytes) :
+    readTime (timeBytes t ++ rest) = .ok (normTime t, rest) := by
+  have hm : ∀ x, x % 4294967296 < 4294967296 := fun x => Nat.mod_lt _ (by decide)
+  cases t with
+  | int t =>
+    simp [readTime, timeBytes, List.append_assoc, readL_be32 (hm t), readL_be32 (show 0 < 4294967296 by decide), normTime]
+  | pair s n =>
+    simp [readTime, timeBytes, List.append_assoc, readL_be32 (hm s), readL_be32 (hm n), normTime]
 
 theorem pack20_of_length {b : Bytes} (h : b.length = 20) : pack20 b = b := by
   unfold pack20
@@ -285,15 +305,15 @@ theorem pack20_of_length {b : Bytes} (h : b.length = 20) : pack20 b = b := by
 /-- The 46 bytes of the fixed part. -/
 def fixedBytes (e : Entry) (flags : Nat) : Bytes :=
   be32 (e.dev % 4294967296) ++ be32 (e.ino % 4294967296) ++ be32 e.mode ++ be32 e.uid ++ be32 e.gid ++
-    be32 e.size ++ e.sha ++ be16 flags
+    be32 (e.size % 4294967296) ++ e.sha ++ be16 flags
 
 theorem packFixed_ok {e : Entry} {flags : Nat} (hm : e.mode < 4294967296) (hu : e.uid < 4294967296)
-    (hg : e.gid < 4294967296) (hs : e.size < 4294967296) (hsha : e.sha.length = 20) (hf : flags < 65536) :
+    (hg : e.gid < 4294967296) (hsha : e.sha.length = 20) (hf : flags < 65536) :
     packFixed e flags = .ok (fixedBytes e flags) := by
   unfold packFixed fixedBytes
   simp only [maskOpt, devMask, inoMask, modeMask, uidMask, gidMask, sizeMask, and_u32]
   rw [packL_ok (Nat.mod_lt _ (by decide)), packL_ok (Nat.mod_lt _ (by decide)), packL_ok hm, packL_ok hu,
-    packL_ok hg, packL_ok hs, packH_ok hf, pack20_of_length hsha]
+    packL_ok hg, packL_ok (Nat.mod_lt _ (by decide)), packH_ok hf, pack20_of_length hsha]
   simp
 
 theorem fixedBytes_length {e : Entry} {flags : Nat} (hsha : e.sha.length = 20) :
@@ -301,10 +321,10 @@ theorem fixedBytes_length {e : Entry} {flags : Nat} (hsha : e.sha.length = 20) :
   simp [fixedBytes, be32_length, be16_length, hsha]
 
 theorem readFixed_fixedBytes {e : Entry} {flags : Nat} (hm : e.mode < 4294967296) (hu : e.uid < 4294967296)
-    (hg : e.gid < 4294967296) (hs : e.size < 4294967296) (hsha : e.sha.length = 20) (hf : flags < 65536)
+    (hg : e.gid < 4294967296) (hsha : e.sha.length = 20) (hf : flags < 65536)
     (rest : Bytes) :
     readFixed (fixedBytes e flags ++ rest) =
-      .ok ((e.dev % 4294967296, e.ino % 4294967296, e.mode, e.uid, e.gid, e.size), e.sha, flags, rest) := by
+      .ok ((e.dev % 4294967296, e.ino % 4294967296, e.mode, e.uid, e.gid, e.size % 4294967296), e.sha, flags, rest) := by
   have hlen : ¬ ((fixedBytes e flags ++ rest).length < entryReadLen) := by
     simp [fixedBytes_length hsha, entryReadLen]
   unfold readFixed
@@ -315,7 +335,7 @@ theorem readFixed_fixedBytes {e : Entry} {flags : Nat} (hm : e.mode < 4294967296
   rw [readL_be32 hm]; simp only [bind_ok]
   rw [readL_be32 hu]; simp only [bind_ok]
   rw [readL_be32 hg]; simp only [bind_ok]
-  rw [readL_be32 hs]; simp only [bind_ok]
+  rw [readL_be32 (Nat.mod_lt _ (by decide))]; simp only [bind_ok]
   have t : (e.sha ++ (be16 flags ++ rest)).take 20 = e.sha := by
     rw [List.take_append_of_le_length (by omega)]; exact List.take_of_length_le (by omega)
   have d : (e.sha ++ (be16 flags ++ rest)).drop 20 = be16 flags ++ rest := by
@@ -325,21 +345,26 @@ theorem readFixed_fixedBytes {e : Entry} {flags : Nat} (hm : e.mode < 4294967296
 
 /-! ### one entry -/
 
-/-- Well-formedness exactly as the round-trip proof needs it (DESIGN F11: narrower than the
-property's quantifier in `name_lt` and `size`). -/
+/-- Well-formedness as the round-trip proof needs it.  After the repair series nothing is required of
+the name length, the size, the times, dev or ino.  What remains: a git path contains no NUL (for
+versions below 4 only the part beyond the first 4095 bytes matters to the codec), `mode`, `uid`, `gid`
+fit their 32-bit fields (they are packed unmasked), the id has 20 bytes, the two flag words 16 bits, and
+extended flags need version 3. -/
 def WFEntry (v : Nat) (e : Entry) : Prop :=
-  e.name.length < 4096 ∧ (4 ≤ v → (0 : UInt8) ∉ e.name) ∧ timeOk e.ctime ∧ timeOk e.mtime ∧
-  e.mode < 4294967296 ∧ e.uid < 4294967296 ∧ e.gid < 4294967296 ∧ e.size < 4294967296 ∧
+  (4 ≤ v → (0 : UInt8) ∉ e.name) ∧ (v < 4 → (0 : UInt8) ∉ e.name.drop 4095) ∧
+  e.mode < 4294967296 ∧ e.uid < 4294967296 ∧ e.gid < 4294967296 ∧
   e.sha.length = 20 ∧ e.flags < 65536 ∧ e.ext < 65536 ∧
   ((e.ext ≠ 0 ∨ e.flags &&& flagExtended ≠ 0) → 3 ≤ v)
 
 instance (v : Nat) (e : Entry) : Decidable (WFEntry v e) := by unfold WFEntry; infer_instance
 
-/-- What comes back: times as pairs, dev/ino modulo 2^32 (as git), the name-length bits of the
-flags cleared and the "extended" bit set when there are extended flags. -/
+/-- What comes back: times as pairs, and — exactly as C git narrows them — the two halves of each time,
+dev, ino and size modulo 2^32; the name-length bits of the flags cleared and the "extended" bit set when
+there are extended flags.  Everything else unchanged. -/
 def normEntry (e : Entry) : Entry :=
   { e with ctime := normTime e.ctime, mtime := normTime e.mtime, dev := e.dev % 4294967296,
-           ino := e.ino % 4294967296, flags := clearBits (diskFlags e) flagNameMask }
+           ino := e.ino % 4294967296, size := e.size % 4294967296,
+           flags := clearBits (diskFlags e) flagNameMask }
 
 /-- The extended-flags word as written. -/
 def extBytes (e : Entry) : Bytes := if diskFlags e &&& flagExtended ≠ 0 then be16 e.ext else []
@@ -364,16 +389,18 @@ theorem hiNibble_ext {f x : Nat} (hf : f < 65536) :
   have := key _ h (decide (x ≠ 0))
   simpa using this
 
-theorem diskFlags_lt {e : Entry} (hl : e.name.length < 4096) (hf : e.flags < 65536) :
-    diskFlags e < 65536 := by
-  rw [diskFlags_eq e hl]; have := hiNibble_lt (x := e.ext) hf; omega
+theorem diskFlags_lt {e : Entry} (hf : e.flags < 65536) : diskFlags e < 65536 := by
+  rw [diskFlags_eq e]; have := hiNibble_lt (x := e.ext) hf; omega
 
-theorem diskFlags_ext {e : Entry} (hl : e.name.length < 4096) (hf : e.flags < 65536) :
+theorem diskFlags_ext {e : Entry} (hf : e.flags < 65536) :
     (diskFlags e &&& flagExtended ≠ 0) ↔ (e.ext ≠ 0 ∨ e.flags &&& flagExtended ≠ 0) := by
-  rw [diskFlags_eq e hl]
+  rw [diskFlags_eq e]
   simp only [flagExtended]
-  rw [word_and_ext _ _ hl, ← hiNibble_ext hf]
+  rw [word_and_ext _ _ (by omega), ← hiNibble_ext hf]
   omega
+
+theorem diskFlags_name (e : Entry) : diskFlags e &&& flagNameMask = min e.name.length 4095 := by
+  rw [diskFlags_eq e]; exact word_and_name _ _ (by omega)
 
 /-- The bytes `write_cache_entry` writes for a well-formed entry. -/
 def entryBytes (v : Nat) (prev : Bytes) (e : Entry) : Bytes :=
@@ -383,15 +410,15 @@ def entryBytes (v : Nat) (prev : Bytes) (e : Entry) : Bytes :=
 
 theorem writeCacheEntry_ok {v : Nat} {e : Entry} (prev : Bytes) (h : WFEntry v e) :
     writeCacheEntry v prev e = .ok (entryBytes v prev e) := by
-  obtain ⟨hl, _, hct, hmt, hm, hu, hg, hs, hsha, hf, hx, hv⟩ := h
+  obtain ⟨_, _, hm, hu, hg, hsha, hf, hx, hv⟩ := h
   unfold writeCacheEntry
-  rw [packTime_ok hct, packTime_ok hmt]
+  rw [packTime_ok, packTime_ok]
   simp only [bind_ok]
   have hnot : ¬ (diskFlags e &&& flagExtended ≠ 0 ∧ v < wExtendedFrom) := by
     intro ⟨h1, h2⟩
-    have := hv ((diskFlags_ext hl hf).1 h1)
+    have := hv ((diskFlags_ext hf).1 h1)
     simp only [wExtendedFrom] at h2; omega
-  rw [if_neg hnot, packFixed_ok hm hu hg hs hsha (diskFlags_lt hl hf)]
+  rw [if_neg hnot, packFixed_ok hm hu hg hsha (diskFlags_lt hf)]
   simp only [bind_ok]
   unfold entryBytes extBytes
   by_cases hext : diskFlags e &&& flagExtended ≠ 0
@@ -403,12 +430,6 @@ theorem writeCacheEntry_ok {v : Nat} {e : Entry} (prev : Bytes) (h : WFEntry v e
     by_cases hv4 : v ≥ 4
     · simp [hv4]
     · simp [hv4]
-
-theorem readVarint_encode (n : Nat) (rest : Bytes) : readVarint (encodeVarint n ++ rest) = .ok (n, rest) := by
-  unfold readVarint; rw [readVarintAux_encode]; simp
-
-theorem decodeVarint_encode (n : Nat) (rest : Bytes) : decodeVarint (encodeVarint n ++ rest) = (n, rest) := by
-  unfold decodeVarint; rw [decodeVarintAux_encode]; simp
 
 theorem decompressPathStream_compress (path prev rest : Bytes) (h : (0 : UInt8) ∉ path) :
     decompressPathStream prev (compressPath path prev ++ rest) = .ok (path, rest) := by
@@ -426,103 +447,165 @@ theorem decompressPath_compress (path prev rest : Bytes) (h : (0 : UInt8) ∉ pa
   rw [decodeVarint_encode]
   simp only [splitNul_append _ rest hd, rebuild_compress]
 
-theorem padLenRead_eq (n : Nat) : padLenRead n = padLenWrite n := rfl
-
 theorem extBytes_length_le (e : Entry) : (extBytes e).length ≤ 2 := by
   unfold extBytes; split <;> simp [be16_length]
 
+/-- The name-and-padding part of `read_cache_entry` below version 4, on what the writer produced:
+`hd` bytes were consumed before the name, `p` NULs of padding follow it. -/
+theorem readName_ok (name rest : Bytes) (hd p : Nat) (hpe : padLenWrite (hd + name.length) = p)
+    (hnul : (0 : UInt8) ∉ name.drop 4095) (d : Bytes)
+    (hdlen : d.length = hd + name.length + p + rest.length) :
+    (if min name.length 4095 = flagNameMask then
+      match splitNul ((name ++ (List.replicate p 0 ++ rest)).drop (min name.length 4095)) with
+      | none => (Except.error IErr.value : R (Bytes × Bytes))
+      | some (more, d6) =>
+        .ok ((name ++ (List.replicate p 0 ++ rest)).take (min name.length 4095) ++ more,
+          d6.drop (padLenRead (d.length - ((name ++ (List.replicate p 0 ++ rest)).drop (min name.length 4095)).length
+            + more.length) - 1))
+    else .ok ((name ++ (List.replicate p 0 ++ rest)).take (min name.length 4095),
+      ((name ++ (List.replicate p 0 ++ rest)).drop (min name.length 4095)).drop
+        (padLenRead (d.length - ((name ++ (List.replicate p 0 ++ rest)).drop (min name.length 4095)).length))))
+      = .ok (name, rest) := by
+  have hp := padLenWrite_eq (hd + name.length)
+  rw [hpe] at hp
+  have hp1 : 1 ≤ p := by omega
+  by_cases hsat : name.length < 4095
+  · -- not saturated
+    have hk : min name.length 4095 = name.length := by omega
+    have hne : ¬ (min name.length 4095 = flagNameMask) := by simp only [flagNameMask]; omega
+    have htake : (name ++ (List.replicate p 0 ++ rest)).take name.length = name := by
+      rw [List.take_append_of_le_length (Nat.le_refl _)]; exact List.take_of_length_le (Nat.le_refl _)
+    have hdrop : (name ++ (List.replicate p 0 ++ rest)).drop name.length = List.replicate p 0 ++ rest := by
+      rw [List.drop_append_of_le_length (Nat.le_refl _)]; simp
+    rw [if_neg hne, hk, htake, hdrop]
+    have hl : d.length - (List.replicate p (0 : UInt8) ++ rest).length = hd + name.length := by
+      simp only [List.length_append, List.length_replicate]; omega
+    rw [hl, padLenRead_eq, hpe, List.drop_append_of_le_length (by simp), List.drop_of_length_le (by simp)]
+    simp
+  · -- saturated: 4095 bytes by length, the rest up to the NUL that starts the padding
+    have hk : min name.length 4095 = 4095 := by omega
+    have heq : min name.length 4095 = flagNameMask := by simp only [flagNameMask]; exact hk
+    have htake : (name ++ (List.replicate p 0 ++ rest)).take 4095 = name.take 4095 := by
+      rw [List.take_append_of_le_length (by omega)]
+    have hrep : List.replicate p (0 : UInt8) = 0 :: List.replicate (p - 1) 0 := by
+      cases p with
+      | zero => omega
+      | succ q => simp [List.replicate_succ]
+    have hdrop : (name ++ (List.replicate p 0 ++ rest)).drop 4095
+        = name.drop 4095 ++ (0 :: (List.replicate (p - 1) 0 ++ rest)) := by
+      rw [List.drop_append_of_le_length (by omega), hrep]; simp
+    rw [if_pos heq, hk, htake, hdrop, splitNul_append _ _ hnul]
+    simp only
+    have hl : d.length - (name.drop 4095 ++ (0 :: (List.replicate (p - 1) 0 ++ rest))).length
+        + (name.drop 4095).length = hd + name.length := by
+      simp only [List.length_append, List.length_cons, List.length_replicate, List.length_drop]; omega
+    rw [hl, padLenRead_eq, hpe, List.take_append_drop,
+      List.drop_append_of_le_length (by simp), List.drop_of_length_le (by simp)]
+    simp
+
 theorem readCacheEntry_entryBytes {v : Nat} {e : Entry} (prev rest : Bytes) (h : WFEntry v e) :
     readCacheEntry v prev (entryBytes v prev e ++ rest) = .ok (normEntry e, rest) := by
-  obtain ⟨hl, hnul, hct, hmt, hm, hu, hg, hs, hsha, hf, hx, hv⟩ := h
-  have hW := diskFlags_lt hl hf
-  have hWeq := diskFlags_eq e hl
-  -- what the reader sees in the flags word
-  have hname : diskFlags e &&& flagNameMask = e.name.length := by
-    rw [hWeq]; exact word_and_name _ _ hl
+  obtain ⟨hnul4, hnul, hm, hu, hg, hsha, hf, hx, hv⟩ := h
+  have hW := diskFlags_lt hf
+  have hname := diskFlags_name e
   have hext0 : ¬ (diskFlags e &&& flagExtended ≠ 0) → e.ext = 0 := by
     intro hext
     by_contra hne
-    exact hext ((diskFlags_ext hl hf).2 (Or.inl hne))
+    exact hext ((diskFlags_ext hf).2 (Or.inl hne))
   unfold readCacheEntry entryBytes
   by_cases hv4 : v ≥ 4
   · -- version 4: compressed path, no padding
     simp only [if_pos hv4, List.append_assoc]
-    rw [readTime_timeBytes hct]; simp only [bind_ok]
-    rw [readTime_timeBytes hmt]; simp only [bind_ok]
-    rw [readFixed_fixedBytes hm hu hg hs hsha hW]; simp only [bind_ok]
+    rw [readTime_timeBytes]; simp only [bind_ok]
+    rw [readTime_timeBytes]; simp only [bind_ok]
+    rw [readFixed_fixedBytes hm hu hg hsha hW]; simp only [bind_ok]
     have hv3 : ¬ v < rExtendedFrom := by simp only [rExtendedFrom]; omega
     have hc : v ≥ rCompressFrom := by simp only [rCompressFrom]; omega
-    have hp : ¬ v < rPadBelow := by simp only [rPadBelow]; omega
     unfold extBytes
     by_cases hext : diskFlags e &&& flagExtended ≠ 0
     · simp only [if_pos hext, if_neg hv3, readH_be16 hx, bind_ok, if_pos hc,
-        decompressPathStream_compress _ _ _ (hnul hv4), if_neg hp, pure_eq_ok]
+        decompressPathStream_compress _ _ _ (hnul4 hv4), pure_eq_ok]
       simp [normEntry]
     · simp only [if_neg hext, List.nil_append, pure_eq_ok, bind_ok, if_pos hc,
-        decompressPathStream_compress _ _ _ (hnul hv4), if_neg hp]
+        decompressPathStream_compress _ _ _ (hnul4 hv4)]
       simp [normEntry, hext0 hext]
-  · -- versions below 4: name of `flags & 0xFFF` bytes, then 1..8 NULs
+  · -- versions below 4: name by length (to the NUL when the length field is saturated), then padding
     simp only [if_neg hv4, List.append_assoc]
-    rw [readTime_timeBytes hct]; simp only [bind_ok]
-    rw [readTime_timeBytes hmt]; simp only [bind_ok]
-    rw [readFixed_fixedBytes hm hu hg hs hsha hW]; simp only [bind_ok]
+    rw [readTime_timeBytes]; simp only [bind_ok]
+    rw [readTime_timeBytes]; simp only [bind_ok]
+    rw [readFixed_fixedBytes hm hu hg hsha hW]; simp only [bind_ok]
     have hc : ¬ v ≥ rCompressFrom := by simp only [rCompressFrom]; omega
-    have hp : v < rPadBelow := by simp only [rPadBelow]; omega
-    have htake : ∀ t : Bytes, (e.name ++ t).take e.name.length = e.name := by
-      intro t; rw [List.take_append_of_le_length (Nat.le_refl _)]; exact List.take_of_length_le (Nat.le_refl _)
-    have hdrop : ∀ t : Bytes, (e.name ++ t).drop e.name.length = t := by
-      intro t; rw [List.drop_append_of_le_length (Nat.le_refl _)]; simp
+    have hnul' := hnul (by omega)
     unfold extBytes
     by_cases hext : diskFlags e &&& flagExtended ≠ 0
     · have hv3 : ¬ v < rExtendedFrom := by
-        have := hv ((diskFlags_ext hl hf).1 hext); simp only [rExtendedFrom]; omega
-      simp only [if_pos hext, if_neg hv3, readH_be16 hx, bind_ok, if_neg hc, hname,
-        htake, hdrop, if_pos hp, pure_eq_ok, padLenRead_eq]
-      have hlen : ∀ (p : Nat),
-          (timeBytes e.ctime ++ (timeBytes e.mtime ++ (fixedBytes e (diskFlags e) ++ (be16 e.ext ++ (e.name ++ (List.replicate p 0 ++ rest)))))).length
-            - (List.replicate p (0:UInt8) ++ rest).length
-          = (timeBytes e.ctime ++ (timeBytes e.mtime ++ (fixedBytes e (diskFlags e) ++ (be16 e.ext ++ e.name)))).length := by
-        intro p; simp only [List.length_append]; omega
+        have := hv ((diskFlags_ext hf).1 hext); simp only [rExtendedFrom]; omega
+      simp only [if_pos hext, if_neg hv3, readH_be16 hx, bind_ok, if_neg hc, hname, pure_eq_ok]
+      have hlen : (timeBytes e.ctime ++ (timeBytes e.mtime ++ (fixedBytes e (diskFlags e) ++ (be16 e.ext ++ e.name)))).length
+          = 64 + e.name.length := by
+        simp [timeBytes_length, fixedBytes_length hsha, be16_length]; omega
       rw [hlen]
-      rw [List.drop_append_of_le_length (by simp), List.drop_of_length_le (by simp)]
-      simp [normEntry]
-    · simp only [if_neg hext, List.nil_append, pure_eq_ok, bind_ok, if_neg hc, hname, htake, hdrop,
-        if_pos hp, padLenRead_eq]
-      have hlen : ∀ (p : Nat),
-          (timeBytes e.ctime ++ (timeBytes e.mtime ++ (fixedBytes e (diskFlags e) ++ (e.name ++ (List.replicate p 0 ++ rest))))).length
-            - (List.replicate p (0:UInt8) ++ rest).length
-          = (timeBytes e.ctime ++ (timeBytes e.mtime ++ (fixedBytes e (diskFlags e) ++ e.name))).length := by
-        intro p; simp only [List.length_append]; omega
+      have key := readName_ok e.name rest 64 _ rfl hnul'
+        (timeBytes e.ctime ++ (timeBytes e.mtime ++ (fixedBytes e (diskFlags e) ++ (be16 e.ext ++
+          (e.name ++ (List.replicate (padLenWrite (64 + e.name.length)) 0 ++ rest))))))
+        (by simp [timeBytes_length, fixedBytes_length hsha, be16_length]; omega)
+      split at key
+      · rename_i hk
+        rw [if_pos hk]
+        split at key
+        · cases key
+        · rename_i more d6 hs
+          rw [hs]
+          simp only [Except.ok.injEq, Prod.mk.injEq] at key
+          simp only [key.1, key.2]
+          simp [normEntry]
+      · rename_i hk
+        rw [if_neg hk]
+        simp only [Except.ok.injEq, Prod.mk.injEq] at key
+        simp only [key.1, key.2]
+        simp [normEntry]
+    · simp only [if_neg hext, List.nil_append, pure_eq_ok, bind_ok, if_neg hc, hname]
+      have hlen : (timeBytes e.ctime ++ (timeBytes e.mtime ++ (fixedBytes e (diskFlags e) ++ e.name))).length
+          = 62 + e.name.length := by
+        simp [timeBytes_length, fixedBytes_length hsha]; omega
       rw [hlen]
-      rw [List.drop_append_of_le_length (by simp), List.drop_of_length_le (by simp)]
-      simp [normEntry, hext0 hext]
-
-/-! ### padding -/
-
-theorem and_7 (x : Nat) : x &&& 7 = x % 8 := by
-  have := Nat.and_two_pow_sub_one_eq_mod x 3
-  simpa using this
-
-theorem padLenWrite_eq (n : Nat) : padLenWrite n = 8 - n % 8 := by
-  simp only [padLenWrite, padLenWith, padAddWrite, padMaskWrite, clearBits, and_7]; omega
+      have key := readName_ok e.name rest 62 _ rfl hnul'
+        (timeBytes e.ctime ++ (timeBytes e.mtime ++ (fixedBytes e (diskFlags e) ++
+          (e.name ++ (List.replicate (padLenWrite (62 + e.name.length)) 0 ++ rest)))))
+        (by simp [timeBytes_length, fixedBytes_length hsha]; omega)
+      split at key
+      · rename_i hk
+        rw [if_pos hk]
+        split at key
+        · cases key
+        · rename_i more d6 hs
+          rw [hs]
+          simp only [Except.ok.injEq, Prod.mk.injEq] at key
+          simp only [key.1, key.2]
+          simp [normEntry, hext0 hext]
+      · rename_i hk
+        rw [if_neg hk]
+        simp only [Except.ok.injEq, Prod.mk.injEq] at key
+        simp only [key.1, key.2]
+        simp [normEntry, hext0 hext]
 
 /-! ### normal form of the flags -/
 
-theorem normFlags_eq {e : Entry} (hl : e.name.length < 4096) :
-    (normEntry e).flags = 4096 * hiNibble e.flags e.ext := by
+theorem normFlags_eq (e : Entry) : (normEntry e).flags = 4096 * hiNibble e.flags e.ext := by
   simp only [normEntry, flagNameMask]
-  rw [diskFlags_eq e hl, word_clear _ _ hl]
+  rw [diskFlags_eq e, word_clear _ _ (by omega)]
 
 /-- An entry that is already in the form the reader produces. -/
 def Canonical (e : Entry) : Prop :=
-  (∃ s n, e.ctime = .pair s n) ∧ (∃ s n, e.mtime = .pair s n) ∧ e.dev < 4294967296 ∧ e.ino < 4294967296 ∧
+  (∃ s n, e.ctime = .pair s n ∧ s < 4294967296 ∧ n < 4294967296) ∧
+  (∃ s n, e.mtime = .pair s n ∧ s < 4294967296 ∧ n < 4294967296) ∧
+  e.dev < 4294967296 ∧ e.ino < 4294967296 ∧ e.size < 4294967296 ∧
   e.flags % 4096 = 0 ∧ (e.ext ≠ 0 → e.flags &&& flagExtended ≠ 0)
 
-theorem normEntry_of_canonical {e : Entry} (hl : e.name.length < 4096) (hf : e.flags < 65536)
-    (h : Canonical e) : normEntry e = e := by
-  obtain ⟨⟨s1, n1, h1⟩, ⟨s2, n2, h2⟩, hd, hi, hlow, hx⟩ := h
+theorem normEntry_of_canonical {e : Entry} (hf : e.flags < 65536) (h : Canonical e) : normEntry e = e := by
+  obtain ⟨⟨s1, n1, h1, hs1, hn1⟩, ⟨s2, n2, h2, hs2, hn2⟩, hd, hi, hsz, hlow, hx⟩ := h
   have hflags : (normEntry e).flags = e.flags := by
-    rw [normFlags_eq hl]
+    rw [normFlags_eq]
     unfold hiNibble
     by_cases hext : e.ext ≠ 0
     · have hb := hx hext
@@ -538,9 +621,10 @@ theorem normEntry_of_canonical {e : Entry} (hl : e.name.length < 4096) (hf : e.f
   cases e with
   | mk name ctime mtime dev ino mode uid gid size sha flags ext =>
     simp only [normEntry] at hflags ⊢
-    simp only at h1 h2 hd hi
+    simp only at h1 h2 hd hi hsz
     subst h1 h2
-    simp only [normTime, Nat.mod_eq_of_lt hd, Nat.mod_eq_of_lt hi]
+    simp only [normTime, Nat.mod_eq_of_lt hd, Nat.mod_eq_of_lt hi, Nat.mod_eq_of_lt hsz, Nat.mod_eq_of_lt hs1,
+      Nat.mod_eq_of_lt hn1, Nat.mod_eq_of_lt hs2, Nat.mod_eq_of_lt hn2]
     congr
 
 /-! ### the entry loop -/
@@ -587,7 +671,11 @@ theorem readEntries_entriesBytes {v : Nat} : ∀ (es : List Entry) (prev : Bytes
 
 /-! ### extensions -/
 
-def WFExt (x : Ext) : Prop := x.1.length = 4 ∧ x.1.all isSigByte = true ∧ x.2.length < 4294967296
+/-- An extension the reader accepts: 4-byte signature, a payload whose length fits the `>I` field, and —
+the index-format rule the code now implements — either one of the signatures dulwich has a class for
+(TREE, REUC, UNTR, sdir) or a signature that starts with `A..Z` (optional, carried along unparsed). -/
+def WFExt (x : Ext) : Prop :=
+  x.1.length = 4 ∧ (knownSigs.contains x.1 = true ∨ firstIsOptional x.1 = true) ∧ x.2.length < 4294967296
 
 instance (x : Ext) : Decidable (WFExt x) := by unfold WFExt; infer_instance
 
@@ -595,16 +683,16 @@ def extsBytes : List Ext → Bytes
   | [] => []
   | x :: xs => x.1 ++ be32 x.2.length ++ x.2 ++ extsBytes xs
 
-theorem writeExts_ok : ∀ (xs : List Ext), (∀ x ∈ xs, WFExt x) → writeExts xs = .ok (extsBytes xs)
+theorem writeExts_ok : ∀ (xs : List Ext), (∀ x ∈ xs, x.2.length < 4294967296) → writeExts xs = .ok (extsBytes xs)
   | [], _ => rfl
   | x :: xs, h => by
-    have hx : WFExt x := h x (by simp)
-    have hxs : ∀ y ∈ xs, WFExt y := fun y hy => h y (by simp [hy])
-    simp [writeExts, writeExt, packL_ok hx.2.2, writeExts_ok xs hxs, extsBytes]
+    have hx : x.2.length < 4294967296 := h x (by simp)
+    have hxs : ∀ y ∈ xs, y.2.length < 4294967296 := fun y hy => h y (by simp [hy])
+    simp [writeExts, writeExt, packL_ok hx, writeExts_ok xs hxs, extsBytes]
 
 theorem readExts_extsBytes : ∀ (xs : List Ext) (fuel : Nat) (trailer : Bytes),
     (∀ x ∈ xs, WFExt x) → trailer.length = 20 → (extsBytes xs ++ trailer).length ≤ fuel →
-    readExts fuel (extsBytes xs ++ trailer) = (xs.map fun x => fromRaw x.1 x.2, trailer, [])
+    readExts fuel (extsBytes xs ++ trailer) = .ok (xs.map fun x => fromRaw x.1 x.2, trailer)
   | [], fuel, trailer, _, ht, _ => by
     cases fuel with
     | zero => simp [readExts, extsBytes]
@@ -626,13 +714,19 @@ theorem readExts_extsBytes : ∀ (xs : List Ext) (fuel : Nat) (trailer : Bytes),
         rw [List.drop_append_of_le_length (by omega), List.drop_of_length_le (by omega)]; simp
       have hf' : (extsBytes xs ++ trailer).length ≤ f := by
         simp [extsBytes, h4, be32_length] at hfuel ⊢; omega
-      rw [readExts, if_neg hbig]
-      simp only [htake, hdrop, h4, hsig, readL_be32 hlen]
+      have hl4 : ¬ (x.1.length < 4) := by omega
+      have hok : (!knownSigs.contains x.1 && !firstIsOptional x.1) = false := by
+        rcases hsig with hs | hs
+        · rw [hs]; rfl
+        · rw [hs]; simp
+      have hnotshort : ¬ ((x.2 ++ (extsBytes xs ++ trailer)).length < x.2.length) := by simp
       have ht2 : (x.2 ++ (extsBytes xs ++ trailer)).take x.2.length = x.2 := by
         rw [List.take_append_of_le_length (Nat.le_refl _)]; exact List.take_of_length_le (Nat.le_refl _)
       have hd2 : (x.2 ++ (extsBytes xs ++ trailer)).drop x.2.length = extsBytes xs ++ trailer := by
         rw [List.drop_append_of_le_length (Nat.le_refl _)]; simp
-      simp [ht2, hd2, readExts_extsBytes xs f trailer hxs ht hf']
+      rw [readExts.eq_def]
+      simp only [if_neg hbig, htake, hdrop, if_neg hl4, readL_be32 hlen, if_neg hnotshort, hok, ht2, hd2,
+        readExts_extsBytes xs f trailer hxs ht hf', List.map_cons, Bool.false_eq_true, if_false]
 
 /-! ### whole file -/
 
@@ -642,7 +736,7 @@ def fileBody (v : Nat) (es : List Entry) (xs : List Ext) : Bytes :=
 
 theorem writeIndex_ok {ver : Option Nat} {es : List Entry} {xs : List Ext}
     (hv : effectiveVersion ver es < 4294967296) (hn : es.length < 4294967296)
-    (hes : ∀ e ∈ es, WFEntry (effectiveVersion ver es) e) (hxs : ∀ x ∈ xs, WFExt x) :
+    (hes : ∀ e ∈ es, WFEntry (effectiveVersion ver es) e) (hxs : ∀ x ∈ xs, x.2.length < 4294967296) :
     writeIndex ver es xs = .ok (fileBody (effectiveVersion ver es) es xs) := by
   unfold writeIndex fileBody
   simp [packL_ok hv, packL_ok hn, writeEntries_ok es [] hes, writeExts_ok xs hxs]
@@ -667,13 +761,14 @@ theorem take_body (body trailer : Bytes) :
   rw [this, List.take_append_of_le_length (Nat.le_refl _)]
   exact List.take_of_length_le (Nat.le_refl _)
 
-theorem readIndexDict_of_parts (file : Bytes) {v n : Nat} {d0 d1 : Bytes} {dict : Dict}
-    (h1 : readHeader file = .ok (v, n, d0)) (h2 : readEntries v n [] [] d0 = .ok (dict, d1)) :
-    readIndexDict file = .ok (dict, v, (readExts d1.length d1).1, (readExts d1.length d1).2.1,
-      file.take (file.length - (readExts d1.length d1).2.1.length) ++ (readExts d1.length d1).2.2) := by
+theorem readIndexDict_of_parts (file : Bytes) {v n : Nat} {d0 d1 rest : Bytes} {dict : Dict} {exts : List Ext}
+    (h1 : readHeader file = .ok (v, n, d0)) (h2 : readEntries v n [] [] d0 = .ok (dict, d1))
+    (h3 : readExts d1.length d1 = .ok (exts, rest)) :
+    readIndexDict file = .ok (dict, v, exts, rest, file.take (file.length - rest.length)) := by
   unfold readIndexDict
   rw [h1]; simp only
-  rw [h2]
+  rw [h2]; simp only
+  rw [h3]
 
 theorem readIndexDict_of_entries_error (file : Bytes) {v n : Nat} {d0 : Bytes} {x : IErr}
     (h1 : readHeader file = .ok (v, n, d0)) (h2 : readEntries v n [] [] d0 = .error x) :
@@ -702,8 +797,8 @@ theorem readIndexDict_file {v : Nat} {es : List Entry} {xs : List Ext} {trailer 
     exact readIndexDict_of_entries_error _ h1 h2
   | ok d =>
     rw [hfold] at h2
-    rw [readIndexDict_of_parts _ h1 h2, readExts_extsBytes xs _ trailer hxs ht (Nat.le_refl _)]
-    simp only [List.append_nil, take_body]
+    rw [readIndexDict_of_parts _ h1 h2 (readExts_extsBytes xs _ trailer hxs ht (Nat.le_refl _))]
+    simp only [take_body]
 
 theorem checkSha_hash (H : Bytes → Bytes) (hH : ∀ x, (H x).length = 20) (b : Bool) (body : Bytes) :
     checkSha H b body (H body) = true := by
@@ -712,8 +807,23 @@ theorem checkSha_hash (H : Bytes → Bytes) (hH : ∀ x, (H x).length = 20) (b :
 
 theorem checkSha_zeros (H : Bytes → Bytes) (body : Bytes) :
     checkSha H true body (List.replicate skipHashZeros 0) = true := by
-  have : (List.replicate skipHashZeros (0:UInt8)).take shaReadLen = zeros20 := rfl
+  have : (List.replicate skipHashZeros (0:UInt8)).take shaReadLen = List.replicate shaZeroLen 0 := rfl
   simp [checkSha, this]
+
+/-- Acceptance by `check_sha(allow_empty)` means: the stored trailer is the hash of what was read, or
+(only with `allow_empty`) it is 20 zero bytes.  Nothing else. -/
+theorem checkSha_true_iff (H : Bytes → Bytes) (b : Bool) (hashed rest : Bytes) :
+    checkSha H b hashed rest = true ↔
+      (rest.take 20 = H hashed ∨ (b = true ∧ rest.take 20 = zeros20)) := by
+  have e1 : shaReadLen = 20 := rfl
+  have e2 : List.replicate shaZeroLen (0 : UInt8) = zeros20 := rfl
+  unfold checkSha
+  rw [e1, e2]
+  by_cases h1 : rest.take 20 = H hashed
+  · simp [h1]
+  · by_cases h2 : rest.take 20 = zeros20
+    · cases b <;> simp [h1, h2]
+    · simp [h1, h2]
 
 /-! ### order -/
 
@@ -850,56 +960,6 @@ theorem or_shift12 (x st : Nat) : x ||| (st <<< 12) = 4096 * (x / 4096 ||| st) +
   have a2 : st * 2 ^ 12 % 4096 = 0 := by omega
   rw [a1, a2]; simp
 
-/-! ### the lower-case extension defect -/
-
-theorem lowercase_ext_rejected (H : Bytes → Bytes)
-    (hH : H ([68, 73, 82, 67, 0, 0, 0, 2, 0, 0, 0, 0] ++ [115, 100, 105, 114])
-          ≠ [115, 100, 105, 114, 0, 0, 0, 0] ++ (H ([68, 73, 82, 67, 0, 0, 0, 2, 0, 0, 0, 0] ++ [115, 100, 105, 114, 0, 0, 0, 0])).take 12)
-    (h20 : ∀ x, (H x).length = 20) :
-    indexRead H ([68, 73, 82, 67, 0, 0, 0, 2, 0, 0, 0, 0] ++ [115, 100, 105, 114, 0, 0, 0, 0] ++
-      H ([68, 73, 82, 67, 0, 0, 0, 2, 0, 0, 0, 0] ++ [115, 100, 105, 114, 0, 0, 0, 0])) = .error .checksum := by
-  generalize hT : H ([68, 73, 82, 67, 0, 0, 0, 2, 0, 0, 0, 0] ++ [115, 100, 105, 114, 0, 0, 0, 0]) = T at hH ⊢
-  have hTl : T.length = 20 := by rw [← hT]; exact h20 _
-  have h1 : readHeader ([68, 73, 82, 67, 0, 0, 0, 2, 0, 0, 0, 0] ++ [115, 100, 105, 114, 0, 0, 0, 0] ++ T)
-      = .ok (2, 0, [115, 100, 105, 114, 0, 0, 0, 0] ++ T) := by
-    simp [readHeader, magic, readL, versions]
-  have h2 : readEntries 2 0 [] [] ([115, 100, 105, 114, 0, 0, 0, 0] ++ T) = .ok ([], [115, 100, 105, 114, 0, 0, 0, 0] ++ T) := rfl
-  have h3 : readExts ([115, 100, 105, 114, 0, 0, 0, 0] ++ T).length ([115, 100, 105, 114, 0, 0, 0, 0] ++ T)
-      = ([], [115, 100, 105, 114, 0, 0, 0, 0] ++ T, [115, 100, 105, 114]) := by
-    have hl : ([115, 100, 105, 114, 0, 0, 0, 0] ++ T).length = 27 + 1 := by simp [hTl]
-    rw [hl, readExts]
-    have hbig : ¬ (([115, 100, 105, 114, 0, 0, 0, 0] ++ T).length ≤ trailerLen) := by simp [hTl, trailerLen]
-    rw [if_neg hbig]
-    have hs : ([115, 100, 105, 114, 0, 0, 0, 0] ++ T).take 4 = [115, 100, 105, 114] := by simp
-    simp only [hs]
-    have hsig : (![115, 100, 105, 114].all isSigByte) = true := by decide
-    have hl4 : ¬ (([115, 100, 105, 114] : Bytes).length < 4) := by decide
-    rw [if_neg hl4, if_pos hsig]
-  unfold indexRead
-  rw [readIndexDict_of_parts _ h1 h2, h3]
-  simp only
-  have htake : ([68, 73, 82, 67, 0, 0, 0, 2, 0, 0, 0, 0] ++ [115, 100, 105, 114, 0, 0, 0, 0] ++ T).take
-      (([68, 73, 82, 67, 0, 0, 0, 2, 0, 0, 0, 0] ++ [115, 100, 105, 114, 0, 0, 0, 0] ++ T).length -
-        ([115, 100, 105, 114, 0, 0, 0, 0] ++ T).length) = [68, 73, 82, 67, 0, 0, 0, 2, 0, 0, 0, 0] := by
-    rw [List.append_assoc]; exact take_body _ _
-  rw [htake]
-  have hstored : ([115, 100, 105, 114, 0, 0, 0, 0] ++ T).take shaReadLen = [115, 100, 105, 114, 0, 0, 0, 0] ++ T.take 12 := by
-    simp [shaReadLen]
-  have hne : ([115, 100, 105, 114, 0, 0, 0, 0] ++ T.take 12 : Bytes) ≠ zeros20 := by
-    simp [zeros20, List.replicate]
-  have hlen : ([115, 100, 105, 114, 0, 0, 0, 0] ++ T.take 12 : Bytes).length = 20 := by
-    simp [hTl]
-  have hc : checkSha H allowEmpty ([68, 73, 82, 67, 0, 0, 0, 2, 0, 0, 0, 0] ++ [115, 100, 105, 114])
-      ([115, 100, 105, 114, 0, 0, 0, 0] ++ T) = false := by
-    unfold checkSha
-    simp only [hstored, hlen, allowEmpty]
-    have h1 : (([115, 100, 105, 114, 0, 0, 0, 0] ++ T.take 12 : Bytes) ≠
-        H ([68, 73, 82, 67, 0, 0, 0, 2, 0, 0, 0, 0] ++ [115, 100, 105, 114])) := Ne.symm hH
-    simp only [ne_eq, h1, not_false_eq_true, decide_true, hne, Bool.not_true, Bool.false_or, Bool.and_self,
-      Bool.not_true]
-  rw [hc]
-  rfl
-
 /-! ### Index.write then Index.read -/
 
 theorem versions_lt {v : Nat} (h : versions.contains v = true) : v < 4294967296 := by
@@ -946,7 +1006,8 @@ theorem indexWrite_ok (H : Bytes → Bytes) (skipHash : Bool) {ver : Option Nat}
       .ok (fileBody (effectiveVersion ver (flattenDict d)) (flattenDict d) (xs.filter fun x => !x.2.isEmpty) ++
         (if skipHash then List.replicate skipHashZeros 0
          else H (fileBody (effectiveVersion ver (flattenDict d)) (flattenDict d) (xs.filter fun x => !x.2.isEmpty)))) := by
-  have hxs' : ∀ x ∈ xs.filter (fun x => !x.2.isEmpty), WFExt x := fun x hx => hxs x (List.mem_filter.mp hx).1
+  have hxs' : ∀ x ∈ xs.filter (fun x => !x.2.isEmpty), x.2.length < 4294967296 :=
+    fun x hx => (hxs x (List.mem_filter.mp hx).1).2.2
   have hw := writeIndex_ok (ver := ver) (es := flattenDict d) (versions_lt hv) hn hes hxs'
   unfold indexWrite writeIndexDict
   rw [hw]
@@ -1064,21 +1125,20 @@ theorem serialize_stage (e : Entry) (k : Bytes) (st : Nat) (hst : st ≤ 3) :
   rw [e1, or_mod4, hc]
   simp; omega
 
-theorem stage_normEntry {x : Entry} (hl : x.name.length < 4096) :
-    entryStage (normEntry x) = entryStage x := by
+theorem stage_normEntry (x : Entry) : entryStage (normEntry x) = entryStage x := by
   unfold entryStage
   simp only [flagStageMask, flagStageShift]
-  rw [stageOf_flags, stageOf_flags, normFlags_eq hl]
+  rw [stageOf_flags, stageOf_flags, normFlags_eq]
   unfold hiNibble
   have e1 : 4096 * (x.flags / 4096 ||| if x.ext ≠ 0 then 4 else 0) / 4096 = (x.flags / 4096 ||| if x.ext ≠ 0 then 4 else 0) := by omega
   rw [e1, or_mod4]
   split <;> simp
 
-theorem foldAdd_flattenVal {acc : Dict} {k : Bytes} (val : Val) (hk : k ∉ keys acc) (hl : k.length < 4096) :
+theorem foldAdd_flattenVal {acc : Dict} {k : Bytes} (val : Val) (hk : k ∉ keys acc) :
     foldAdd acc ((flattenVal k val).map normEntry) = .ok (acc ++ (normVal k val).toList) := by
   have hst : ∀ (e : Entry) (st : Nat), st ≤ 3 → entryStage (normEntry (serialize e k st)) = st := by
     intro e st h
-    rw [stage_normEntry (by simpa [serialize] using hl), serialize_stage e k st h]
+    rw [stage_normEntry, serialize_stage e k st h]
   have hname : ∀ (e : Entry) (st : Nat), (normEntry (serialize e k st)).name = k := fun _ _ => rfl
   cases val with
   | normal e =>
@@ -1157,19 +1217,17 @@ theorem normVal_key {k : Bytes} {v : Val} {kv : Bytes × Val} (h : normVal k v =
     · simp only [Option.some.injEq] at h; rw [← h]
 
 theorem foldAdd_flatten : ∀ (sd acc : Dict), (∀ k ∈ keys sd, k ∉ keys acc) → (keys sd).Nodup →
-    (∀ k ∈ keys sd, k.length < 4096) →
     foldAdd acc ((sd.flatMap fun kv => flattenVal kv.1 kv.2).map normEntry) =
       .ok (acc ++ sd.filterMap fun kv => normVal kv.1 kv.2)
-  | [], acc, _, _, _ => by simp [foldAdd]
-  | (k, v) :: rest, acc, hdis, hnd, hlen => by
+  | [], acc, _, _ => by simp [foldAdd]
+  | (k, v) :: rest, acc, hdis, hnd => by
     have hk : k ∉ keys acc := hdis k (by simp [keys])
-    have hl : k.length < 4096 := hlen k (by simp [keys])
     have hnd' : (keys rest).Nodup := by
       simp only [keys, List.map_cons, List.nodup_cons] at hnd; exact hnd.2
     have hkrest : k ∉ keys rest := by
       simp only [keys, List.map_cons, List.nodup_cons] at hnd; exact hnd.1
     simp only [List.flatMap_cons, List.map_append]
-    rw [foldAdd_append, foldAdd_flattenVal v hk hl]
+    rw [foldAdd_append, foldAdd_flattenVal v hk]
     simp only
     have hdis' : ∀ k' ∈ keys rest, k' ∉ keys (acc ++ (normVal k v).toList) := by
       intro k' hk' hmem
@@ -1183,18 +1241,17 @@ theorem foldAdd_flatten : ∀ (sd acc : Dict), (∀ k ∈ keys sd, k ∉ keys ac
           | some w => rw [hnv] at hkv; simp at hkv; rw [hkv]
         rw [normVal_key this] at hk'
         exact hkrest hk'
-    rw [foldAdd_flatten rest _ hdis' hnd' (fun k' hk' => hlen k' (by simp only [keys, List.map_cons, List.mem_cons]; exact Or.inr hk'))]
+    rw [foldAdd_flatten rest _ hdis' hnd']
     congr 1
     simp only [List.filterMap_cons]
     cases normVal k v with
     | none => simp
     | some w => simp
 
-theorem dict_rebuilt (d : Dict) (hnd : (keys d).Nodup) (hlen : ∀ k ∈ keys d, k.length < 4096) :
+theorem dict_rebuilt (d : Dict) (hnd : (keys d).Nodup) :
     foldAdd [] ((flattenDict d).map normEntry) = .ok ((sortDict d).filterMap fun kv => normVal kv.1 kv.2) := by
   have hp : (keys (sortDict d)).Perm (keys d) := (sortDict_perm d).map _
   have := foldAdd_flatten (sortDict d) [] (by intro k _; simp [keys]) (hp.nodup_iff.mpr hnd)
-    (fun k hk => hlen k (hp.subset hk))
   simpa [flattenDict] using this
 
 theorem serialize_name (e : Entry) (k : Bytes) (st : Nat) : (serialize e k st).name = k := rfl
